@@ -77,13 +77,14 @@ function bn.from(v)
   if type(v) == 'string' then
     if v:find('^[-+]?0[bB]') then -- binary number
       local neg, int, frac, exp = binpatt:match(v)
-      assert(int, 'malformed binary number')
+      -- a failed match returns nil, 'fail', position: only `neg` (true or false on success) tells it apart
+      assert(neg ~= nil, 'malformed binary number')
       local n = from(2, 2, int, frac, exp)
       if neg then n = -n end
       return n, 2
     elseif v:find('^[-+]?0[xX]') then -- hexadecimal number
       local neg, int, frac, exp = hexpatt:match(v)
-      assert(int, 'malformed hexadecimal number')
+      assert(neg ~= nil, 'malformed hexadecimal number')
       local n
       if frac or exp then
         -- Lua's own reader rounds hexadecimal floats correctly (once), any mantissa length and exponent
